@@ -217,7 +217,11 @@ def saved_consistency(S, b, gaps=False, max_out=16, rates_consistent=True):
         add("pointer/header_data_start", "header data-start word %d, the parameter section (block %d + %d blocks) ends at block %d" % (h["data_start"], h["param_block"], D["nblocks"], h["param_block"] + D["nblocks"]))
     pds = D["P"](b"POINT", b"DATA_START")
     if pds is None:
-        add("pointer/point_data_start_missing", "no POINT:DATA_START parameter")
+        # only a loss when the saving object HAS the parameter (a file can be loaded without POINT:DATA_START; the object, and a file that
+        # decodes to it, then have none)
+        has = S is None or any(g_["name"].upper() == b"POINT" and any(q_["name"].upper() == b"DATA_START" for q_ in g_["params"]) for g_ in S["groups"])
+        if has:
+            add("pointer/point_data_start_missing", "no POINT:DATA_START parameter")
     elif D["d_par"] != D["d_after"]:
         v = c3dref.param_values(pds)
         key = "pointer/point_data_start"
